@@ -304,7 +304,7 @@ class Scratch(object):
         shutil.rmtree(self.dir, ignore_errors=True)
 
 
-def run_child(scr, argv, pieces, sleeps=(), stub_zlib=False, wait_sync=False, timeout=60):
+def run_child(scr, argv, pieces, sleeps=(), stub_zlib=False, wait_sync=False, timeout=20):
     """feed `pieces` to the one-liner's stdin (a socket, as in ssh.connect), then close.
     -> dict(rc, out, err, log)"""
     scr.n += 1
@@ -450,6 +450,42 @@ def gen_table(rng, profile):
     # that reports its arguments and whatever is left on stdin
     del t["sshuttle.assembler"]
     t["sshuttle.server"] = t["sshuttle.server"] + (b"\n" if t["sshuttle.server"] and not t["sshuttle.server"].endswith(b"\n") else b"") + SERVER_STUB
+    return t
+
+
+NBYTES_TARGETS = [2, 3, 9, 10, 11, 99, 100, 101, 999, 1000, 1001, 4095, 4096, 4097, 8191, 8192, 8193, 9999, 10000, 10001,
+                  65535, 65536, 65537, 99999, 100000, 100001]
+
+
+def gen_table_nbytes(rng, targets, real_zlib):
+    """a table in which the COMPRESSED length of some modules (the number on the length line and the argument of
+    stdin.read) hits the given values exactly: buffer sizes and changes in the number of digits"""
+    import zlib
+    t = gen_table(rng, "tiny")
+    names = ["sshuttle", "sshuttle.helpers", "sshuttle.ssnet", "sshuttle.hostwatch"]
+    if not real_zlib:
+        for n, tg in zip(names, targets):
+            t[n] = gen_source(rng, "noise", tg)[:tg - 2 - 1] + b"\n" if tg > 2 else b""   # stand-in codec adds 2 bytes
+            assert len(t[n]) + 2 == tg
+        return t
+    # real zlib: only the first chunk of the stream can be tuned independently of the others
+    tg = targets[0]
+    base = gen_source(rng, "noise", 3 * tg + 400)
+
+    def clen(k):
+        z = zlib.compressobj(1)
+        return len(z.compress(base[:k] + b"\n") + z.flush(zlib.Z_SYNC_FLUSH))
+    lo, hi = 0, len(base)
+    while lo < hi:
+        mid = (lo + hi) // 2
+        if clen(mid) >= tg:
+            hi = mid
+        else:
+            lo = mid + 1
+    for kk in range(max(0, lo - 80), min(len(base), lo + 80)):
+        if clen(kk) == tg:
+            t["sshuttle"] = base[:kk] + b"\n"
+            break
     return t
 
 
@@ -618,8 +654,14 @@ def bootstrap_case(ctx, scr, case, rng):
     pieces = cut(rng, upload + extra, how, len(writes[0]))
     sleeps = set(rng.randrange(len(pieces)) for _ in range(min(6, len(pieces)))) if len(pieces) > 1 else ()
     res = run_child(scr, argv, pieces, sleeps, stub_zlib=stub, wait_sync=(srcs is None))
+    timed_out = "timeout" if res["rc"] == "timeout" else None
     asm_obs, mods_obs = observed_modules(res)
     opts_obs = observed_options(res)
+    if case.get("profile", "").startswith("nbytes"):
+        import re
+        for ln in re.findall(rb"\n(\d+)\n", writes[1][:200]):
+            ctx.count("first_length_line_%s" % ln.decode())
+            break
     # what the client packaged, in upload order
     src_of = dict(packaged)
     optdata = "".join("%s=%r\n" % (k, v) for k, v in options.items()).encode("utf-8")
@@ -667,10 +709,10 @@ def bootstrap_case(ctx, scr, case, rng):
     total = sum(len(d) for _, d in packaged)
     if total > MODEL_MAX:
         ctx.count("model_skipped_too_large")
-        return
+        return timed_out
     if not in_fragment(options):
         ctx.count("options_outside_fragment_impl_only")
-        return
+        return timed_out
     tbl = tbl_token(packaged)
     up = ctx.run_driver(["UPLOAD %s %s" % (tbl, opts_token(options))])[0].split(" ")
     m_c1, m_c2, m_len, m_ok = unhx(up[0]), unhx(up[1]), int(unhx(up[2])), up[3]
@@ -693,6 +735,7 @@ def bootstrap_case(ctx, scr, case, rng):
     ro = ctx.run_driver(["ROPTS %s" % tbl_token(m_mods)])[0]
     if optdata and opts_from_token(ro) != opts_obs:
         ctx.disagree("remote_options vs values seen in the remote interpreter", info, opts_obs, ro, holds=(opts_obs == opts_canon(options)))
+    return timed_out
 
 
 # ---------------------------------------------------------------------------
@@ -793,7 +836,8 @@ def part_packaging(ctx):
 def part_bootstrap(ctx, scr):
     rng = ctx.rng
     quick = ctx.quick()
-    sync = unhx(ctx.run_driver(["SYNC"])[0].split(" ")[0])
+    # what the client's handshake accepts: two NULs, then client._main's `expected`
+    sync = b"\0\0" + unhx(ctx.run_driver(["SYNC"])[0].split(" ")[1])
     cases = []
     # real sources, real zlib
     hows = ["whole", "dribble", "fixed7", "fixed4096", "random", "bounds", "bounds-1", "bounds+1"] if quick else \
@@ -822,8 +866,21 @@ def part_bootstrap(ctx, scr):
         cases.append({"mode": "stub", "srcs": gen_table(rng, profile), "how": how, "profile": profile,
                       "options": gen_options(rng, full=rng.random() < 0.7),
                       "extra": rng.choice([b"", b"tail", b"\n"])})
+    tg = list(NBYTES_TARGETS)
+    rng.shuffle(tg)
+    groups = [tg[i:i + 4] for i in range(0, len(tg), 4)]
+    for g in groups:
+        cases.append({"mode": "stub", "srcs": gen_table_nbytes(rng, g, False), "how": rng.choice(["whole", "random", "fixed4096", "bounds3"]),
+                      "profile": "nbytes%r" % (g,), "options": gen_options(rng, full=True), "extra": b""})
+    for t1 in ([4096, 8192, 65536, 1000] if quick else NBYTES_TARGETS[3:]):
+        cases.append({"mode": "real", "srcs": gen_table_nbytes(rng, [t1], True), "how": rng.choice(["whole", "random", "fixed8192"]),
+                      "profile": "nbytes%d" % t1, "options": gen_options(rng, full=True), "extra": b""})
+    timeouts = 0
     for c in cases:
-        bootstrap_case(ctx, scr, c, rng)
+        timeouts += 1 if bootstrap_case(ctx, scr, c, rng) == "timeout" else 0
+        if timeouts >= 3:
+            ctx.disagree("bootstrap", "three bootstrap runs timed out; remaining cases skipped", "timeout", "-")
+            break
     ctx.extra["bootstrap_interpreters_started"] = scr.n
 
 
@@ -936,8 +993,21 @@ def client_trace(options_extra, server_chunks, poll, seed_hosts, accept, srcs=No
         ev = bd.events
         real_send = ssnet.Mux.send
         real_runonce = ssnet.runonce
-        old = (ssnet.Mux.send, ssnet.runonce, client.log, helpers.log, ssnet.set_non_blocking_io)
-        state = {"connected": False}
+        old = (ssnet.Mux.send, ssnet.runonce, client.log, helpers.log, ssnet.select)
+        real_select = ssnet.select
+
+        class SelectShim(object):
+            # a start-up that has nothing to write would block in select() for ever: report it instead
+            def __getattr__(self, k):
+                return getattr(real_select, k)
+
+            @staticmethod
+            def select(r, w, x, timeout=None):
+                res = real_select.select(r, w, x, 0.05 if timeout is None else timeout)
+                if timeout is None and not (res[0] or res[1] or res[2]):
+                    ev.append("BLOCKED")
+                    raise StopLoop()
+                return res
 
         def send(self, channel, cmd, data):
             n = len(self.outbuf)
@@ -964,6 +1034,7 @@ def client_trace(options_extra, server_chunks, poll, seed_hosts, accept, srcs=No
             return r
         ssnet.Mux.send = send
         ssnet.runonce = runonce
+        ssnet.select = SelectShim()
         client.log = helpers.log = log
         bd.ssh.connect = connect_then_script
         so = sys.stdout
@@ -984,7 +1055,7 @@ def client_trace(options_extra, server_chunks, poll, seed_hosts, accept, srcs=No
             except Exception as e:
                 ev.append("EXC:" + type(e).__name__)
         finally:
-            ssnet.Mux.send, ssnet.runonce, client.log, helpers.log, ssnet.set_non_blocking_io = old
+            ssnet.Mux.send, ssnet.runonce, client.log, helpers.log, ssnet.select = old
             bd.ssh.connect = real_connect_fn
             sys.stdout = so
         return list(ev), list(bd.sock.rec), list(bd.packaged)
